@@ -125,6 +125,17 @@ def run(rep, tier, seed):
     scripts = r.tagged("SCRIPTS")[0]
     files = r.tagged("FILES")[0]
     hists = r.tagged("HIST")
+    # longer histories (random walks of the same model): 5 (thorough 7) loads, the invariants checked in every state
+    KL = 5 if tier == "quick" else 7
+    rs = common.run_tlc("MC_C12", cfg.replace("K = %d" % K, "K = %d" % KL), timeout=3000, workers=4,
+                        simulate="num=%d" % (60 if tier == "quick" else 600), extra=["-depth", "600", "-seed", str(seed + 12)])
+    common.require_ok(rs, "MC_C12 (random walks)")
+    if rs.violated:
+        raise common.MachineryError("MC_C12 (random walks): the intended specification violates %s" % rs.violated)
+    rep.add_tlc(rs, "MC_C12 random histories of %d loads (simulation)" % KL)
+    long_h = rs.tagged("HIST")
+    rep.cov["long_histories"] = len(long_h)
+    hists = hists + long_h
     uniq = {}
     for h in hists:
         uniq.setdefault(tuple((x["sid"], x["ep"]) for x in h), h)
@@ -149,7 +160,7 @@ def run(rep, tier, seed):
     rng = random.Random(seed)
     rjobs = []
     for _ in range(200 if tier == "quick" else 2000):
-        h = [rng.choice(failing) if (failing and rng.random() < 0.4) else rng.choice(pool) for _ in range(3)]
+        h = [rng.choice(failing) if (failing and rng.random() < 0.4) else rng.choice(pool) for _ in range(rng.choice((3, 3, 4, 6)))]
         rjobs.append({"cases": h})
     with ctx.Pool(16, maxtasksperchild=1) as pool2:
         rres = pool2.map(run_random_history, rjobs, chunksize=1)
@@ -165,7 +176,7 @@ def run(rep, tier, seed):
     rep.cov["traces_validated_against_impl"] += len(jobs)
     rep.cov["evaluations"] += len(jobs)
     rep.cov["distinct_nontrivial"] += len(jobs)
-    rep.cov["loads_executed"] = len(jobs) * K
+    rep.cov["loads_executed"] = sum(len(j["hist"]) for j in jobs)
     rep.cov["rule"] = ("every sequence of %d loads over 19 scripts, the included files (also a nested one) edited or not between two loads (valid, template, tdm with p-array, failing at the syntax stage, at an undefined name, "
                        "at a type error, inside a loop, inside an include, in the metadata, after a parameter was seen; scripts whose target/type options "
                        "mention x, i, p0, {p}); each history runs in its own fresh process; every outcome compared with the pristine outcome" % K)
